@@ -1042,6 +1042,42 @@ theorem C05_pinned_append :
                           .seqRead "/mem/s".toList]).2 = [.unit, .unit, .records [['1'], ['2'], ['3']]] := by
   decide
 
+/-! ## Histories around serialisation: `to_json` has no memory -/
+
+/-- A history: serialise the current value with some options, or continue with the value a
+mutation (at any depth) has produced. -/
+inductive HistOp where
+  | ser (o : JOpts)
+  | put (t : Tree)
+
+/-- SPEC of a history: every serialisation is `to_json` of the value *as it is at that moment*,
+whatever was serialised, queried or memoised before. -/
+def histRun (env : ClassEnv) : Tree → List HistOp → List (Tree × JV)
+  | _, [] => []
+  | t, .ser o :: ops => (t, toJsonO o env t) :: histRun env t ops
+  | _, .put t' :: ops => histRun env t' ops
+
+/-- WHAT IS SAVED IS WHAT IS LOADED, at every point of every history: each output of the history
+loads back (with `allow_partial`, as `pg.load` does) to the value that was current when it was
+written — provided that value is well formed and encodable. The implementation is compared with
+this memory-less model on generated histories (serialise, mutate at depth 1–3, query the memoised
+derived state, serialise again; all option combinations). -/
+theorem C05_history (env : ClassEnv) (hwf : env.WF = true) :
+    ∀ (ops : List HistOp) (t : Tree), ∀ r ∈ histRun env t ops,
+      Conforms env r.1 = true → Encodable false r.1 = true → fromJson env true r.2 = .ok r.1 := by
+  intro ops
+  induction ops with
+  | nil => intro t r hr; cases hr
+  | cons op ops ih =>
+    intro t r hr hc he
+    cases op with
+    | ser o =>
+      simp only [histRun, List.mem_cons] at hr
+      rcases hr with rfl | hr
+      · exact C05_roundtrip_opts o env hwf true _ hc he (.inl rfl)
+      · exact ih t r hr hc he
+    | put t' => exact ih t' r hr hc he
+
 /-! ## Record sequences in memory (`.mem`, `.mem@N`): a read returns fresh values -/
 
 /-- READ YOUR APPENDS for the memory sequence store, for every history over any set of paths: a
